@@ -1368,6 +1368,14 @@ class RTCSctpTransport(AsyncIOEventEmitter):
                 )
                 return
 
+            if self._last_received_tsn is None or uint32_gt(
+                param.last_tsn, self._last_received_tsn
+            ):
+                # data sent before the reset is still missing (for instance
+                # the DATA_CHANNEL_OPEN of that very stream): do not reset
+                # yet, the request is retransmitted by the peer
+                return
+
             # mark closed inbound streams
             for stream_id in param.streams:
                 self._inbound_streams.pop(stream_id, None)
